@@ -135,7 +135,8 @@ CLAIMS = {
    text='Exceptional postconditions (raised IFF condition) on the real get_value of the min/max, memory-zone, enumeration, relative-address '
         'and sliced-address parts, and on PackedBits.append_bits / AssembledInstruction.get_bytes (value fits the signed-or-unsigned range of its field width 1..64).',
    note='Also: the configured min / max and the measured-from-the-last-byte flag are proved to reach the relative-address part unchanged '
-        '(RelativeAddressOperand.parse_operand, RelativeAddressByteCodePart.__init__). Expression evaluation is an assumed deterministic contract; '
+        '(RelativeAddressOperand.parse_operand, RelativeAddressByteCodePart.__init__), and likewise the min / max of a numeric-bytecode operand '
+        '(NumericBytecode.parse_operand, ExpressionByteCodePartWithValidation.__init__). Expression evaluation is an assumed deterministic contract; '
         'NumericBytecode.__init__ (inverted range) is under C19.'),
 }
 NA = {
